@@ -197,7 +197,6 @@ func fixedCerts() [][]byte {
 	return out
 }
 
-
 // frequent field values have names in Corr/C06.v (keeps case files small; Coq is slow on long literals)
 var symStr = map[string]string{"target": "S1", "t.example": "S2", "t": "S3", "": "S0", "user": "S4", "root": "S5", "u2": "S6", "echo hi": "S7", "sudo reboot": "S8", "ls -la /": "S9", "echo hello world": "S10"}
 var symNum = map[uint64]string{1700000000: "T1", 1700003600: "T2", 4611686018427387907: "T3", 9223372036854775807: "T4"}
